@@ -240,6 +240,22 @@ impl<M: Math, A: MassMatrixAdaptStrategy<M>> AdaptStrategy<M> for GlobalStrategy
     }
 }
 
+#[cfg(nuts_rs_verif)]
+impl<M: Math, A: MassMatrixAdaptStrategy<M>> GlobalStrategy<M, A> {
+    /// Verification hook: the schedule state after the last `adapt` call.
+    pub fn verif_probe(&self) -> crate::verif::ScheduleProbe {
+        crate::verif::ScheduleProbe {
+            foreground_count: self.mass_matrix_adapt.current_count(),
+            background_count: self.mass_matrix_adapt.background_count(),
+            current_window_size: self.current_window_size,
+            early_end: self.early_end,
+            final_step_size_window: self.final_step_size_window,
+            last_update: self.last_update,
+            has_initial_mass_matrix: self.has_initial_mass_matrix,
+        }
+    }
+}
+
 #[derive(Debug, Storable)]
 pub struct GlobalStrategyStats<P: HasDims, S: Storable<P>, M: Storable<P>> {
     #[storable(flatten)]
